@@ -10,6 +10,22 @@ BASE_NOTE = ("Trusted base: CPython's ast module; the evaluator/normaliser in fs
 
 # id -> (technique, level text, design ref) for the properties whose check is built and armed
 CLAIMS = {
+    "C04": ("row-shape and formula identity on evaluator terms, unit typing of the turning estimate, small array-algebra normal form, alignment of the dropped-column list",
+            "Static necessary-condition analysis: Young-Laplace rows have exactly the two +-1 entries in the columns of the interface's own cells with the "
+            "orientation branches exact negations, rhs = tension x un-normalised total turning, curvature and trapezoid formulas are normal-form identities "
+            "typed L^-1 and L^0 (scale free), the normal equations are bordered by the zero-sum constraint with one multiplier before the strip, dropped "
+            "columns are re-inserted as zeros from the same list, the system is linear in the tensions. Sign vs. centre of curvature and the numerical accuracy "
+            "of np.gradient are not decided.", "3/C04"),
+    "C05": ("normal-form identity of the augmentation (array algebra), same-SSA-value alignment across back-ends per configuration, handler/guard wiring, typestate at the strip site",
+            "Static necessary-condition analysis: both augmenters produce [[M,1],[1^T,0]] with rhs entry = number of interfaces, every back-end receives the same "
+            "augmented matrix and the once-rounded rhs, negative exact solutions and singular matrices raise into the handler that falls back to NNLS, every lmfit "
+            "parameter has min 0, lsq_linear is bounded below by 0, and the stripped entry is the multiplier for each selectable back-end (known finding: fix_stress). "
+            "KKT optimality/uniqueness are solver behaviour and not decided.", "3/C05"),
+    "C09": ("pairing (register/unregister) on evaluator events, who-may-write over the package, key/id agreement at construction sites, delete-discipline and mutation-under-iteration (destructor effects) rules",
+            "Static necessary-condition analysis of the back-reference bookkeeping: constructor/destructor/replace_vertex pairing for SmallEdge and Cell, only Vertex helpers "
+            "(and SmallEdge.replace_vertex) mutate back-reference lists, only three functions mutate cell cycles, every object is stored under its own id, each of the "
+            "vertex-deletion sites deletes or re-points incident edges first and updates the cells, and no loop iterates a live back-reference list while deleting from it. "
+            "Object identity and topology of runtime meshes are not decided.", "3/C09"),
     "C02": ("placement/alignment and guard analysis on evaluator terms, formula identity of the tangent, covariance kind of the orientation step",
             "Static necessary-condition analysis of the assembled system: unknown/equation layout, row-pair offsets and index advance under one guard, "
             "keep-test on occupied columns, coefficient pair written in the column found for the same interface, tangent = J*(v-c) with the centre "
